@@ -17,6 +17,8 @@ def check(ctx):
     # R7: the screening hands the hits on as they came (casts and column drops only, = C15-R2): hits it blanks are missing
     # from the count that decides NCD / NSC
     screening.normalisation(ctx, 'C02-R7', 'C02-R7')
+    # R8: the flags the NSC / NCD decision reads are those metarize computed: nobody else writes 'significant' (= C17-R4)
+    significance.only_metarize_writes_flags(ctx, 'C02-R8')
     ctx.extra['explanation'] = (
         'With the table sorted by base (R4) and no row reported, a layer of >= 1 okta exists iff a significant row '
         'sits at/above the MSA, because the first >= 1 okta row is always flagged (R1); the exits of metar_msg are '
